@@ -13,7 +13,7 @@ META = {
                     'no failing tasks (C10 domain)'],
     'tiers': {
         'quick': {'shards': 16, 'budget_s': 40, 'n_sim': 2400, 'n_real': 200},
-        'thorough': {'shards': 16, 'budget_s': 300, 'n_sim': 40000, 'n_real': 2400},
+        'thorough': {'shards': 16, 'budget_s': 300, 'n_sim': 40000, 'n_real': 2400, 'n_exhaustive_specs': 400},
     },
 }
 
@@ -49,11 +49,40 @@ def judge(rep, scn, out):
     return ny >= 2 and (len(L) >= 1 or len(out.built.instances) > len(out.built.canon))
 
 
+def exhaustive_subsets(rep, n_specs):
+    """Every pre-cached subset (2^n) of small DAGs, sim backend."""
+    import itertools
+    from vlab import engine
+    from vlab.dagcommon import gen_dag_scenario, scenario_rng, scn_key
+    from vlab.model import cacheable
+    for j in range(rep.shard, n_specs, rep.nshards):
+        if rep.expired():
+            rep.count('skipped_for_time')
+            return
+        rng = scenario_rng(rep.seed, 'C03exh', j)
+        base = gen_dag_scenario(rng, backend='sim', nmax=rng.choice([3, 4, 5]), gated=False, precache=False,
+                                shape=rng.choice(['diamond', 'layered', 'chain', 'fanin', 'mix']))
+        base['storage'] = 'rec'
+        base['fresh_prob'] = rng.choice([0.0, 1.0])
+        names = [n for n in base['spec']['tasks'] if cacheable(base['spec'], n)][:6]
+        for r in range(len(names) + 1):
+            for sub in itertools.combinations(names, r):
+                scn = dict(base, pre=list(sub), sched_seed=rng.randrange(1 << 30))
+                out = engine.run_dag(scn)
+                if getattr(out, 'aborted', None):
+                    rep.inconclusive(f'harness abort: {out.aborted[:100]}', {'scenario': scn})
+                    continue
+                rep.case(scn_key(scn), judge(rep, scn, out))
+                rep.count('exhaustive_subset_runs')
+        rep.count('specs_with_all_cached_subsets')
+
+
 def run_shard(rep):
     from vlab.props.dagprop import drive
     cfg = META['tiers'][rep.tier]
     rep.require('loads_observed', 100)
     rep.require('instances_checked', 500)
+    exhaustive_subsets(rep, cfg.get('n_exhaustive_specs', 16))
     drive(rep, 'C03', make_scn=make_scn, judge=judge, n_sim=cfg['n_sim'], n_real=cfg['n_real'])
 
 
